@@ -28,7 +28,8 @@ PID = 'C20'
 LEAN_MODULES = ['ThermoVerif.Props.C20']
 RULE = ('1–3 helper calls per case, each on fresh real streams over the first n (1–6) of Water, Ethanol, Methanol, '
         'Glycerol, Octane, Propanol with dyadic flows (k·2^-e), outlets pre-filled with material in ~70 % of the '
-        'calls; 10 % of the cases are holder histories: ONE MultiStream passed as multi_stream= to 2–5 successive lle '
+        'calls; every collection of streams is passed as list / tuple / generator / iter / map (list / tuple where the '
+        'helper indexes it), chemical collections as tuple / list / bare string; 10 % of the cases are holder histories: ONE MultiStream passed as multi_stream= to 2–5 successive lle '
         '(or vle) calls with different feeds / efficiencies / top chemicals, and single calls get a pre-filled holder in '
         '~25 % of the lle/vle ops; split vectors j/64; K = 2^e·(1+j/8) within 1e-3…1e3 (all-below-1, all-above-1, exactly-1 and mixed '
         'sets; 12 % of the partition calls with chemicals to force put every K on one side of 1 and force material only into '
@@ -152,6 +153,21 @@ def arr(s):
     return [float(x) for x in s.mol.to_array()]
 
 
+STREAM_REPS = ['list', 'tuple', 'gen', 'iter', 'map']      # Iterable[Stream]: sequences and one-shot iterables
+SEQ_REPS = ['list', 'tuple']                                # where the helper indexes / measures the collection
+
+
+def as_rep(items, rep):
+    """the same streams / identifiers in the container kind `rep`"""
+    items = list(items)
+    if rep in (None, 'list'): return items
+    if rep == 'tuple': return tuple(items)
+    if rep == 'gen': return (x for x in items)
+    if rep == 'iter': return iter(items)
+    if rep == 'map': return map(lambda x: x, items)
+    raise ValueError(rep)
+
+
 def names(n, idx):
     return tuple(CHEMS[i] for i in idx)
 
@@ -219,7 +235,7 @@ def op_ms(d, o):
         if top is bottom: bottom = mk(n, bot0)
         sp = d['split']
         split = float(sp[0]) if d.get('scalar') else np.array(sp, float)
-        sep.mix_and_split(ins, top, bottom, split)
+        sep.mix_and_split(as_rep(ins, d.get('rep')), top, bottom, split)
         return arr(top), arr(bottom)
     t, b = call(d.get('top0'), d.get('bot0'))
     o.emit(f'ms n={n} ins={VS(d["ins"])} split={V(d["split"])}', f'ms top={V(t)} bot={V(b)}')
@@ -234,6 +250,7 @@ def op_ms(d, o):
         check_stale(o, 'mix_and_split', [t, b], call(None, None))
     if any(t) and any(b): o.nontrivial = True
     o.tags.append('ms' + (':aliased' if d.get('alias_top') is not None or d.get('alias_bot') is not None else ''))
+    o.tags.append('rep:ins:' + (d.get('rep') or 'list'))
 
 
 def op_am(d, o):
@@ -295,7 +312,7 @@ def op_msm(d, o):
         ins = [mk(n, f) for f in d['ins']]
         r, p = mk(n, r0), mk(n, p0)
         try:
-            sep.mix_and_split_with_moisture_content(ins, r, p, np.array(d['split'], float), mc, ID, strict)
+            sep.mix_and_split_with_moisture_content(as_rep(ins, d.get('rep')), r, p, np.array(d['split'], float), mc, ID, strict)
         except tmo.exceptions.InfeasibleRegion:
             return None
         return arr(r), arr(p)
@@ -330,6 +347,7 @@ def op_msm(d, o):
         res2 = call(None, None)
         if res2 is not None: check_stale(o, 'mix_split_moisture', [R1, P1], list(res2))
     o.tags.append('msm')
+    o.tags.append('rep:ins:' + (d.get('rep') or 'list'))
 
 
 def emit_bpf(o, feed0=None, ids=None, K=None, topc=(), botc=()):
@@ -362,8 +380,8 @@ def op_pt(d, o):
     feed0 = list(d['feed'])
     alias = None if d.get('only_fraction') else d.get('alias')
     kw = {}
-    if topc: kw['top_chemicals'] = names(n, topc)
-    if botc: kw['bottom_chemicals'] = names(n, botc)
+    if topc: kw['top_chemicals'] = as_rep(names(n, topc), d.get('rep_f'))
+    if botc: kw['bottom_chemicals'] = as_rep(names(n, botc), d.get('rep_f'))
     if d.get('bare'):
         # the docstring form: a single forced chemical given as a bare string (phase_fraction accepts that for
         # bottom_chemicals only: fixes_proposed/C20-7.md)
@@ -378,9 +396,9 @@ def op_pt(d, o):
             warnings.simplefilter('always')
             try:
                 if only_fraction:
-                    phi = sep.phase_fraction(feed, names(n, ids), np.array(K, float), strict=strict, **kw)
+                    phi = sep.phase_fraction(feed, as_rep(names(n, ids), d.get('rep_ids')), np.array(K, float), strict=strict, **kw)
                 else:
-                    phi = sep.partition(feed, top, bottom, names(n, ids), np.array(K, float), strict=strict, **kw)
+                    phi = sep.partition(feed, top, bottom, as_rep(names(n, ids), d.get('rep_ids')), np.array(K, float), strict=strict, **kw)
             except tmo.exceptions.InfeasibleRegion:
                 return 'infeasible', None, None, None, feed0
             except FloatingPointError:
@@ -631,7 +649,7 @@ def op_ps(d, o):
                phase='lgs'[j % 3]) for j in range(nout)]
     line = f'ps n={n} phases={",".join(fph)} rows={VS(rows)} nout={nout}'
     try:
-        sep.phase_split(feed, outs)
+        sep.phase_split(feed, as_rep(outs, d.get('rep')))
     except RuntimeError:
         o.emit(line, 'ps err=runtime')
         if nout == len(fph): o.fail('phase_split:spurious-error', 'RuntimeError although the number of outlets equals the number of phases')
@@ -683,7 +701,7 @@ def op_mb(d, o):
     cout = [mk(n, f) for f in d['cout']]
     line = f'mb n={n} idx={NL(idx)} vin={VS(d["vin"])} cin={VS(d["cin"])} cout={VS(d["cout"])}'
     try:
-        sep.material_balance(names(n, idx), vin, cin, cout)
+        sep.material_balance(as_rep(names(n, idx), d.get('rep_ids')), as_rep(vin, d.get('rep')), as_rep(cin, d.get('rep')), as_rep(cout, d.get('rep')))
     except np.linalg.LinAlgError:
         o.emit(line, 'mb err=singular')
         o.tags.append('mb:singular')
@@ -738,7 +756,7 @@ def op_mbc(d, o):
         return x
     np.linalg.solve = solve
     try:
-        sep.material_balance(names(n, idx), vin, cin, cout, balance='composition')
+        sep.material_balance(as_rep(names(n, idx), d.get('rep_ids')), as_rep(vin, d.get('rep')), as_rep(cin, d.get('rep')), as_rep(cout, d.get('rep')), balance='composition')
     except NoConvergence:
         o.emit(line, 'mbc err=noconv'); o.tags.append('mbc:noconv')
         return
@@ -1005,6 +1023,7 @@ def gen_op(rng):
         if rng.random() < 0.15: d['only_fraction'] = 1
         elif rng.random() < 0.12: d['alias'] = rng.choice(['top', 'top', 'bottom'])
         if rng.random() < 0.3: d['bare'] = 1
+        d['rep_ids'], d['rep_f'] = rng.choice(SEQ_REPS), rng.choice(SEQ_REPS)
         if rng.random() < 0.02:      # nothing at all to partition: the code divides by F_mol = 0
             d['feed'] = [0.0 if (i in ids or i in topc or i in botc) else x for i, x in enumerate(d['feed'])]
             d['empty'] = 1
@@ -1012,6 +1031,7 @@ def gen_op(rng):
     if r < 0.50:                                      # mix_and_split
         k = rng.randrange(1, 5)
         ins = [flows(rng, n, 0.3, at_least_one=rng.random() < 0.9) for _ in range(k)]
+        if rng.random() < 0.25: ins.insert(rng.randrange(len(ins) + 1), [0.0] * n)      # an empty inlet somewhere
         if rng.random() < 0.3:
             s = rng.randrange(0, 65) / 64
             d = dict(n=n, ins=ins, split=[s] * n, scalar=1)
@@ -1021,6 +1041,7 @@ def gen_op(rng):
         if rng.random() < 0.2: d['alias_top'] = rng.randrange(k)
         if rng.random() < 0.2: d['alias_bot'] = rng.randrange(k)
         if d.get('alias_top') is not None and d.get('alias_top') == d.get('alias_bot'): del d['alias_bot']
+        d['rep'] = rng.choice(STREAM_REPS)
         return 'ms ' + json.dumps(d)
     if r < 0.535:                                     # mix_and_split_with_moisture_content
         n = max(n, 2)
@@ -1028,7 +1049,7 @@ def gen_op(rng):
         ins = [flows(rng, n, 0.3) for _ in range(rng.randrange(1, 4))]
         ins[0][0] += 64.0 * rng.randrange(0, 40)          # wash water
         split = [rng.randrange(0, 9) / 64] + [rng.randrange(32, 65) / 64 for _ in range(n - 1)]
-        return 'msm ' + json.dumps(dict(n=n, ins=ins, split=split, k=0, mode=mode, mc=rng.randrange(1, 61) / 64,
+        return 'msm ' + json.dumps(dict(n=n, ins=ins, split=split, k=0, mode=mode, mc=rng.randrange(1, 61) / 64, rep=rng.choice(STREAM_REPS),
                                         strict=rng.choice([None, True, False]), top0=stale(rng, n), bot0=stale(rng, n)))
     if r < 0.64:                                      # adjust_moisture_content
         mode = 'mol' if rng.random() < 0.5 else 'mass'
@@ -1061,7 +1082,7 @@ def gen_op(rng):
         phases = rng.choice(['gl', 'lL', 'gls', 'glL', 'ls', 'l', 'g'])
         rows = [flows(rng, n, 0.3, at_least_one=False) for _ in phases]
         nout = len(phases) if rng.random() < 0.85 else rng.choice([len(phases) - 1, len(phases) + 1])
-        return 'ps ' + json.dumps(dict(n=n, phases=phases, rows=rows, nout=nout, T=rng.choice([300.0, 350.0]),
+        return 'ps ' + json.dumps(dict(n=n, phases=phases, rows=rows, nout=nout, T=rng.choice([300.0, 350.0]), rep=rng.choice(SEQ_REPS),
                                        outs0=[stale(rng, n) for _ in range(nout)]))
     if r < 0.90:                                      # chemical_splits
         a = flows(rng, n, 0.3)
@@ -1092,7 +1113,7 @@ def gen_op(rng):
         if contractive and n > k:          # the outlets carry other chemicals too: sum(f) < 1
             other = [c for c in range(n) if c not in idx]
             cout[0][rng.choice(other)] += 64.0 * rng.randrange(1, 9)
-        return 'mbc ' + json.dumps(dict(n=n, idx=idx, vin=vin, cin=cin, cout=cout))
+        return 'mbc ' + json.dumps(dict(n=n, idx=idx, vin=vin, cin=cin, cout=cout, rep=rng.choice(SEQ_REPS), rep_ids=rng.choice(SEQ_REPS)))
     # material_balance
     k = rng.randrange(1, min(n, 4) + 1)
     idx = rng.sample(range(n), k)
@@ -1116,7 +1137,7 @@ def gen_op(rng):
         if det != 0 and abs(det) < 1: vin[0][idx[0]] += 8.0
     cin = [flows(rng, n, 0.4, at_least_one=False) for _ in range(rng.randrange(0, 3))]
     cout = [flows(rng, n, 0.3) for _ in range(rng.randrange(1, 3))]
-    return 'mb ' + json.dumps(dict(n=n, idx=idx, vin=vin, cin=cin, cout=cout))
+    return 'mb ' + json.dumps(dict(n=n, idx=idx, vin=vin, cin=cin, cout=cout, rep=rng.choice(SEQ_REPS), rep_ids=rng.choice(SEQ_REPS)))
 
 
 def generate(rng, tier, index, nworkers):
